@@ -443,6 +443,31 @@ def _rule_who_completes(ctx: Ctx, r: 'BatcherRoles', rule: str) -> None:
                       'receive an outcome their own batch never produced', construct=construct_key(m.qualname, 'completes futures', x.func.attr))
     if not bad:
         ctx.holds(rule, f'{n_sites} completion site(s), all in {sorted(allowed)}', f'{FILE}:{r.process.lineno}', examined=max(1, n_sites))
+    # ... nobody in the batcher cancels a task or a future (a batch task that is cancelled leaves through CancelledError, past the
+    # fan-out handler: the callers of that batch are never answered), and nobody but __call__ touches the retention cache (an
+    # eviction by key elsewhere can hit the entry a later caller of that key has just registered)
+    for m in meths:
+        for x in ast.walk(m.node):
+            if isinstance(x, ast.Call) and isinstance(x.func, ast.Attribute) and x.func.attr == 'cancel' and not x.args:
+                ctx.violation(rule, f'{m.qualname}: {norm(x)[:60]}', f'{FILE}:{x.lineno}',
+                              'the batcher cancels a task / future itself: a cancelled batch task skips the `except Exception` fan-out, so the callers '
+                              'of whatever batch that task was working on wait for ever', construct=construct_key(m.qualname, 'cancels', norm(x.func.value)))
+    if r.ret:
+        for m in meths:
+            if m is r.call or m is r.init:
+                continue
+            for x in ast.walk(m.node):
+                hit = None
+                if isinstance(x, ast.Call) and isinstance(x.func, ast.Attribute) and self_attr(x.func.value) == r.ret \
+                        and x.func.attr in ('pop', 'popitem', 'clear', 'update', 'setdefault', '__setitem__', '__delitem__'):
+                    hit = x
+                elif isinstance(x, ast.Subscript) and isinstance(x.ctx, (ast.Store, ast.Del)) and self_attr(x.value) == r.ret:
+                    hit = x
+                if hit is not None:
+                    ctx.violation(rule, f'{m.qualname}: {norm(hit)[:60]} changes the retention cache', f'{FILE}:{hit.lineno}',
+                                  'an entry is added or removed outside __call__: removal by key can take away the future a later caller has just '
+                                  'registered under that key - that caller\'s own clean-up then fails (KeyError replaces its result) or the key is computed twice',
+                                  construct=construct_key(m.qualname, 'retention cache changed outside __call__'))
 
 
 def _rule_iterable_use(ctx: Ctx, r: 'BatcherRoles', rule: str) -> None:
@@ -1187,6 +1212,34 @@ def c10(ctx: Ctx) -> None:
     ctx.check('C10-R4', f'queue operations used: {sorted(qmethods)}', f'{FILE}:{r.cls.lineno}',
               qmethods <= {'put', 'get', 'get_nowait', 'put_nowait', 'qsize', 'empty'}, 'only FIFO put/get',
               f'unexpected queue operations {sorted(qmethods)}', construct=construct_key(r.cls.qualname, 'queue ops', sorted(qmethods)))
+    # the options stay what the caller configured: no method of the batcher other than the constructor assigns an attribute the
+    # constructor fills from a parameter (a `flush()` that sets batch_timeout to 0 "for the moment" and restores it afterwards is
+    # not re-entrant - two overlapping calls leave the 0 behind)
+    opt_attrs = {a_ for a_, v_ in r.attr_ctor.items() if isinstance(v_, ast.Name) and v_.id in r.init.params}
+    n_ow = 0
+    for m_ in [s_ for s_ in r.u.functions() if s_.enclosing_class() is r.cls and s_ is not r.init]:
+        for x_ in own_nodes(m_.node):
+            if isinstance(x_, (ast.Assign, ast.AnnAssign, ast.AugAssign)):
+                tg_ = x_.targets if isinstance(x_, ast.Assign) else [x_.target]
+                for t_ in tg_:
+                    if isinstance(t_, ast.Attribute) and isinstance(t_.value, ast.Name) and t_.value.id == 'self' and t_.attr in opt_attrs \
+                            and not any((dotted(d_) or '').endswith('.setter') for d_ in m_.decorators):
+                        n_ow += 1
+                        ctx.violation('C10-R5', f'{m_.qualname}: {norm(x_)[:60]}', f'{FILE}:{x_.lineno}',
+                                      f'a method of the batcher overwrites the configured option `{t_.attr}`: whatever it is restored to later depends on '
+                                      'what other calls of that method saw - the limits and timeouts the caller configured stop applying',
+                                      construct=construct_key(m_.qualname, 'option overwritten', t_.attr))
+    if not n_ow:
+        ctx.holds('C10-R5', f'options {sorted(opt_attrs)} are assigned by the constructor only', f'{FILE}:{r.init.lineno}')
+    # the batch list itself only grows at its end: `sort()` / `reverse()` / `insert()` / `pop()` ... reorder or drop calls (and a
+    # sort of (key, arg, future) entries compares futures when a key and its argument repeat - TypeError in the dispatcher)
+    lops = sorted({n.ast.func.attr for n in g.nodes if n.kind == 'call' and isinstance(n.ast.func, ast.Attribute)
+                   and isinstance(resolve(g, n, n.ast.func.value, keep=(L,)), ast.Name) and resolve(g, n, n.ast.func.value, keep=(L,)).id == L})
+    ctx.check('C10-R4', f'operations on the batch list `{L}`: {lops}', f'{FILE}:{r.assemble.lineno}',
+              set(lops) <= {'append', 'extend', 'copy', '__len__', 'count', 'index'}, 'append / extend only: arrival order is batch order',
+              f'the batch list is reordered or shrunk in place ({sorted(set(lops) - {"append", "extend", "copy", "__len__", "count", "index"})}): '
+              'calls no longer appear in arrival order (and comparing whole entries can raise inside the dispatcher, which then dies)',
+              construct=construct_key(r.assemble.qualname, 'batch list reordered', lops))
     asm_calls = []
     for f in p.all_functions():
         gg = build(f, p)
